@@ -95,7 +95,7 @@ class C13(BaseCheck):
   REQUIRED_ANCHORS = ANCHORS
   REQUIRED_CLASSES = ('headers', 'ctx:ascii', 'ctx:utf8', 'ctx:empty', 'ctx:long', 'ctx:none',
                       'deadline', 'client-id', 'reply:OK', 'reply:ERROR', 'reply:NACK', 'reply:Rerr',
-                      'reply:BAD_Rerr', 'tdiscarded', 'wire')
+                      'reply:BAD_Rerr', 'tdiscarded', 'wire', 'wire:requests-while-opening')
   ASSUMPTIONS = ('context keys/values are text; encoded length of each <= 32767 bytes (int16 length field)',
                  'deadline context = (whole-second wall-clock timestamp in ns, absolute deadline in ns), '
                  'deadline compared with 1us tolerance for the float->ns conversion')
@@ -385,20 +385,30 @@ class C13(BaseCheck):
     from vlib import muxcodec as mc, servers
     from vlib.stackworld import StackWorld
     client_id = rng.choice(['client', 'cliént-€', '日本', 'svc.prod', 'x' * 300])
+    opening = rng.random() < 0.5      # calls issued while the connection is still opening
     w = StackWorld(env, rng, kind='mux', n_eps=1, timeout=2.0, client_id=client_id,
-                   policy=servers.DefaultPolicy(0.001))
+                   policy=servers.DefaultPolicy(0.001), open_timeout=0 if opening else None,
+                   connect_latency=rng.choice([0.02, 0.2]) if opening else 0.0005)
     srv = w.servers[0]
     sent = []
     for _ in range(rng.randint(2, 8)):
       s_ = gen_text(rng, False)
       rec = w.call('echo', ('c%d-%s' % (len(w.calls), s_),), timeout=rng.choice([0.5, 2.0, 30.0]))
       sent.append(rec)
-      env.advance(rng.choice([0.0, 0.01]))
-    env.advance(0.5)
+      env.advance(rng.choice([0.0, 0.0, 0.01]))
+    env.advance(0.8)
+    by_arg = {q['call'][1][0]: q for q in srv.requests if q.get('call') and q['call'][1]}
+    srv_requests = [by_arg.get(r['args'][0]) for r in sent]
+    out.obligations += 1
+    if any(q is None for q in srv_requests) or len(srv.requests) != len(sent):
+      out.violate('wire:call', 'the peer decoded %d requests %r for the %d calls %r' % (
+        len(srv.requests), [q['call'][1][0] for q in srv.requests if q.get('call')][:5], len(sent),
+        [r['args'][0] for r in sent][:5]), {'opening': opening})
+    sent = [r for r, q in zip(sent, srv_requests) if q is not None]
     out.obligations += 1
     for bf in srv.bad_frames:
       out.violate('wire:undecodable', 'the peer\'s independent decoder rejected a frame the client wrote: %r' % (bf,), {})
-    for rec, q in zip(sent, srv.requests):
+    for rec, q in zip(sent, [q for q in srv_requests if q is not None]):
       out.obligations += 3
       ctx = dict(q['contexts'])
       if ctx.get(mc.CLIENT_ID_KEY) != client_id.encode('utf-8'):
@@ -407,7 +417,9 @@ class C13(BaseCheck):
       dl = ctx.get(mc.DEADLINE_KEY)
       try:
         ts, dns = mc.decode_deadline(dl)
-        if abs(dns - (rec['t'] + rec['T']) * 1e9) > 2000 or ts != int(rec['t']) * 10 ** 9:
+        # the timestamp is the whole second at which the frame was marshalled: between issue and arrival
+        if abs(dns - (rec['t'] + rec['T']) * 1e9) > 2000 or ts % 10 ** 9 or \
+            not (int(rec['t']) <= ts // 10 ** 9 <= int(q['vt'])):
           out.violate('wire:deadline', 'deadline context (%d,%d) for call issued at %r with T=%r' % (ts, dns, rec['t'], rec['T']), {})
       except Exception as e:  # noqa
         out.violate('wire:deadline', 'deadline context undecodable: %r' % e, {})
@@ -420,8 +432,87 @@ class C13(BaseCheck):
     out.extra = {'wire_frames': len(srv.requests)}
     out.sig = ('wire', client_id[:8], len(sent))
 
+  def _direct_opening(self, env, rng, idx, tier, out):
+    """Several requests reach a ThriftMux connection that is still opening (the transport parks
+    them until the open completes): every frame written afterwards must carry exactly the
+    contexts and call of ONE of the supplied messages, each supplied message exactly once."""
+    import gevent
+    from scales.constants import SinkProperties, MessageProperties
+    from scales.loadbalancer.zookeeper import Endpoint
+    from scales.message import Deadline, MethodCallMessage
+    from scales.sink import ClientMessageSink, ClientMessageSinkStack, TimeoutSinkProvider
+    from scales.thriftmux.sink import SocketTransportSink, ThriftMuxMessageSerializerSink, ClientIdInterceptorSink
+    from vlib import muxcodec as mc, servers
+    from vlib.stackworld import get_net, _PORT
+    from vlib.gen.verifsvc import ExtService
+    net = get_net(env)
+    net.reset()
+    _PORT[0] += 1
+    srv = servers.MuxServer(net, 'wire', _PORT[0], servers.DefaultPolicy(0.001))
+    srv.sim.connect_latency = rng.choice([0.01, 0.1])
+    tp = SocketTransportSink.Builder()
+    sp = ThriftMuxMessageSerializerSink.Builder()
+    sp.next_provider = tp
+    head = sp
+    client_id = rng.choice([None, 'cid', 'cliént'])
+    if client_id:
+      head = ClientIdInterceptorSink.Builder(client_id=client_id)
+      head.next_provider = sp
+    props = {SinkProperties.Endpoint: Endpoint('wire', _PORT[0]), SinkProperties.Label: 'c13w',
+             SinkProperties.ServiceInterface: ExtService.Iface}
+    top = head.CreateSink(props)
+
+    class Term(ClientMessageSink):
+      def AsyncProcessRequest(self, *a):
+        raise NotImplementedError()
+
+      def AsyncProcessResponse(self, sink_stack, context, stream, msg):
+        pass
+    top.Open()
+    supplied = {}
+    for i in range(rng.randint(2, 7)):
+      arg = 'w%d-%s' % (i, gen_text(rng, False))
+      msg = MethodCallMessage(ExtService.Iface, 'echo', (arg,), {})
+      ctx = {'k%d' % i: gen_text(rng, False), 'common': 'v%d' % i}
+      for k, v in ctx.items():
+        msg.properties[k] = v
+      msg.properties[MessageProperties.Endpoint] = None
+      want = {k.encode('utf-8'): v.encode('utf-8') for k, v in ctx.items()}
+      if client_id:
+        want[mc.CLIENT_ID_KEY] = client_id.encode('utf-8')
+      supplied[arg] = want
+      st = ClientMessageSinkStack()
+      st.Push(Term(), None)
+      gevent.spawn(top.AsyncProcessRequest, st, msg, None, {})
+      if rng.random() < 0.5:
+        env.advance(rng.random() * 0.004)
+    env.advance(0.6)
+    out.obligations += 1 + len(supplied)
+    seen = {}
+    for q in srv.requests:
+      arg = q['call'][1][0] if q.get('call') and q['call'][1] else None
+      seen[arg] = seen.get(arg, 0) + 1
+      if arg not in supplied or dict(q['contexts']) != supplied[arg]:
+        out.violate('wire:mixed-frame', 'a frame written after the connection opened carries call %r with contexts %r; '
+                    'no supplied message has that combination' % (arg, sorted(dict(q['contexts']))[:4]),
+                    {'opening': True}, {'supplied': sorted(supplied)})
+    if sorted(seen.items()) != sorted((a, 1) for a in supplied) and not out.violations:
+      out.violate('wire:mixed-frame', 'messages supplied %r, calls decoded at the peer %r' % (sorted(supplied), sorted(seen.items())),
+                  {'opening': True})
+    for bf in srv.bad_frames:
+      out.violate('wire:undecodable', repr(bf), {})
+    top.Close()
+    env.advance(0.1)
+    out.classes = ['wire', 'wire:requests-while-opening']
+    out.nontrivial = len(srv.requests) > 0
+    out.extra = {'wire_frames': len(srv.requests)}
+    out.sig = ('wire-opening', client_id, len(supplied))
+
   def run_case(self, env, rng, idx, tier):
     out = CaseResult()
+    if idx >= self.nheader and idx % 10 == 5:
+      self._direct_opening(env, rng, idx, tier, out)
+      return out
     if idx < self.nheader:
       self._header_chunk(env, rng, idx, tier, out)
     elif idx % 5 == 0:
